@@ -41,9 +41,11 @@ pub type WalkErr = (String, String);
 struct CountSink(u64);
 impl allsorts::outline::OutlineSink for CountSink {
     fn move_to(&mut self, _: allsorts::pathfinder_geometry::vector::Vector2F) {
+        crate::util::tick();
         self.0 += 1
     }
     fn line_to(&mut self, _: allsorts::pathfinder_geometry::vector::Vector2F) {
+        crate::util::tick();
         self.0 += 1
     }
     fn quadratic_curve_to(
@@ -51,6 +53,7 @@ impl allsorts::outline::OutlineSink for CountSink {
         _: allsorts::pathfinder_geometry::vector::Vector2F,
         _: allsorts::pathfinder_geometry::vector::Vector2F,
     ) {
+        crate::util::tick();
         self.0 += 1
     }
     fn cubic_curve_to(
@@ -58,9 +61,11 @@ impl allsorts::outline::OutlineSink for CountSink {
         _: allsorts::pathfinder_geometry::line_segment::LineSegment2F,
         _: allsorts::pathfinder_geometry::vector::Vector2F,
     ) {
+        crate::util::tick();
         self.0 += 1
     }
     fn close(&mut self) {
+        crate::util::tick();
         self.0 += 1
     }
 }
@@ -690,6 +695,7 @@ pub fn cmap_ops(
         let mut n = 0u64;
         let mut h = Fnv::new();
         let r = sub.mappings_fn(|c, g| {
+            crate::util::tick();
             n += 1;
             h.write_u64(u64::from(g) << 32 | u64::from(c));
         });
